@@ -101,6 +101,8 @@ pub struct VehicleT {
     pub fixed: f64,
     pub per_distance: f64,
     pub per_time: f64,
+    /// duration scale of the vehicle's routing profile
+    pub scale: f64,
 }
 
 pub fn vehicles() -> Vec<VehicleT> {
@@ -115,6 +117,7 @@ pub fn vehicles() -> Vec<VehicleT> {
         fixed: 10.,
         per_distance: 1.,
         per_time: 2.,
+        scale: 1.,
     };
     vec![
         v("v_closed", true, 0., 1000., 2),
@@ -126,6 +129,8 @@ pub fn vehicles() -> Vec<VehicleT> {
         v("v_shift", true, 20., 60., 2),
         // ends somewhere else than it starts
         VehicleT { end_loc: 3, per_time: 3., ..v("v_other_end", true, 0., 1000., 2) },
+        // a routing profile which doubles every travel time
+        VehicleT { scale: 2., ..v("v_scaled", true, 0., 1000., 2) },
     ]
 }
 
@@ -218,7 +223,8 @@ impl Lab {
         let vehicles = vehicles();
         let durations: Vec<f64> = (0..LOCS).flat_map(|i| (0..LOCS).map(move |j| dur(i, j))).collect();
         let distances: Vec<f64> = (0..LOCS).flat_map(|i| (0..LOCS).map(move |j| dist(i, j))).collect();
-        let transport: Arc<dyn TransportCost> = Arc::new(SimpleTransportCost::new(durations, distances).unwrap());
+        // NOTE: the matrix provider (not SimpleTransportCost): it honours the duration scale of a profile
+        let transport: Arc<dyn TransportCost> = create_matrix_transport_cost(vec![MatrixData::new(0, None, durations, distances)]).expect("lab matrix");
 
         let mk_single = |t: &TaskT| -> Single {
             let mut b = SingleBuilder::default().id(t.id);
@@ -285,6 +291,7 @@ impl Lab {
                 .build()
                 .unwrap();
             vehicle.costs.fixed = v.fixed;
+            vehicle.profile = Profile::new(0, Some(v.scale));
             vehicle
         });
         let problem = ProblemBuilder::default()
@@ -439,7 +446,7 @@ pub fn sim(tasks: &[TaskT], vehicle: &VehicleT, seq: &[Visit], departure: f64) -
         let task = &tasks[v.task];
         let p = &task.places[v.place];
         let (ws, we) = p.windows[v.window];
-        let arrival = t + dur(loc, p.loc);
+        let arrival = t + dur(loc, p.loc) * vehicle.scale;
         r.distance += dist(loc, p.loc);
         r.arrivals.push(arrival);
         if arrival > we {
@@ -460,7 +467,7 @@ pub fn sim(tasks: &[TaskT], vehicle: &VehicleT, seq: &[Visit], departure: f64) -
         }
     }
     if vehicle.closed {
-        let arrival = t + dur(loc, vehicle.end_loc);
+        let arrival = t + dur(loc, vehicle.end_loc) * vehicle.scale;
         r.distance += dist(loc, vehicle.end_loc);
         r.end_arrival = arrival;
         if arrival > vehicle.end_latest {
